@@ -358,6 +358,60 @@ func GoStdlibVersion(r Record) string {
 	return r.Version
 }
 
+// GoReplace is one replace directive of a go.mod file ("Old [OldVersion] => New [NewVersion]").
+type GoReplace struct {
+	OldPath, OldVersion string // OldVersion "" = every version of OldPath ("wildcard")
+	NewPath, NewVersion string // NewVersion "" = NewPath is a directory
+}
+
+// GoModReplaces lists the replace directives of the rendered go.mod in file order: the
+// records of kind "replace" and the require records carrying replace_* attributes, in the
+// arranged record order.
+func GoModReplaces(recs []Record, l Layout) []GoReplace {
+	f := formats["gomod"]
+	var out []GoReplace
+	for _, i := range arrange(f, recs, l) {
+		r := recs[i]
+		switch {
+		case r.A("kind") == "replace":
+			out = append(out, GoReplace{r.Name, r.Version, r.A("replace_name"), r.A("replace_version")})
+		case r.A("kind") == "" && r.A("replace_name") != "":
+			d := GoReplace{r.Name, r.Version, r.A("replace_name"), r.A("replace_version")}
+			if r.A("replace_all") != "" {
+				d.OldVersion = ""
+			}
+			out = append(out, d)
+		}
+	}
+	return out
+}
+
+// goModResolve applies the replace directives to one required module version the way the
+// go command does (go.dev/ref/mod#go-mod-file-replace): a directive naming the exact version
+// wins over a version-less one for the same path, whatever their order in the file; a
+// replacement is final (directives are looked up by the module as required, never by the
+// path of a replacement). When several directives name the same left-hand side (the go
+// command rejects such a file; never generated) the first one counts.
+func goModResolve(reps []GoReplace, path, version string) (string, string) {
+	var wild *GoReplace
+	for k := range reps {
+		d := &reps[k]
+		if d.OldPath != path {
+			continue
+		}
+		if d.OldVersion == version {
+			return d.NewPath, d.NewVersion
+		}
+		if d.OldVersion == "" && wild == nil {
+			wild = d
+		}
+	}
+	if wild != nil {
+		return wild.NewPath, wild.NewVersion
+	}
+	return path, version
+}
+
 func init() {
 	f := &formatDef{
 		name: "gomod",
@@ -387,6 +441,9 @@ func init() {
 					r := recs[i]
 					goRec = &r
 				}
+				continue
+			}
+			if recs[i].A("kind") == "replace" {
 				continue
 			}
 			reqs = append(reqs, i)
@@ -494,28 +551,42 @@ func init() {
 			}
 		}
 		var repl [][]string
-		for _, i := range reqs {
-			r := recs[i]
-			if r.A("replace_name") == "" {
-				continue
+		for _, d := range GoModReplaces(recs, l) {
+			old := q(d.OldPath)
+			if d.OldVersion != "" {
+				old += " " + d.OldVersion
 			}
-			old := q(r.Name)
-			if r.A("replace_all") == "" {
-				old += " " + r.Version
+			nw := q(d.NewPath)
+			if d.NewVersion != "" {
+				nw += " " + d.NewVersion
 			}
-			nw := q(r.A("replace_name"))
-			if v := r.A("replace_version"); v != "" {
-				nw += " " + v
+			var it []string
+			if l.commentHere(c) {
+				it = append(it, "// "+c.pick(commentTexts...))
 			}
-			repl = append(repl, []string{old + " => " + nw})
+			ln := old + " => " + nw
+			if l.Comments > 0 && c.n(4) == 0 {
+				ln += " // " + c.pick("fork", "until upstream merges #7", "local checkout")
+			}
+			repl = append(repl, append(it, ln))
 		}
 		if l.Extra >= 3 {
 			repl = append(repl, []string{"example.com/verif/not-required v1.0.0 => example.com/verif/fork v1.0.1"})
 		}
 		if len(repl) > 0 {
-			if l.Variant == "single" || (len(repl) == 1 && c.yes()) {
+			switch {
+			case l.Variant == "single" || (len(repl) == 1 && c.yes()) || (l.Variant == "" && len(repl) > 1 && c.n(3) == 0):
 				secs = append(secs, singles("replace", repl))
-			} else {
+			case l.Variant == "mixed" && len(repl) > 1:
+				// file order = directive order: the block first, the one-line directives after it,
+				// or the other way round
+				h := len(repl) / 2
+				if c.yes() {
+					secs = append(secs, append(block("replace", repl[:h]), singles("replace", repl[h:])...))
+				} else {
+					secs = append(secs, append(singles("replace", repl[:h]), block("replace", repl[h:])...))
+				}
+			default:
 				secs = append(secs, block("replace", repl))
 			}
 		}
@@ -542,18 +613,25 @@ func init() {
 	f.expected = func(recs []Record, l Layout) []Pair {
 		var out []Pair
 		seenGo := false
+		reps := GoModReplaces(recs, l)
+		seen := map[Pair]bool{}
 		for _, r := range recs {
-			if r.A("kind") == "go" {
+			switch r.A("kind") {
+			case "go":
 				if !seenGo {
 					seenGo = true
 					out = append(out, Pair{"stdlib", GoStdlibVersion(r)})
 				}
 				continue
+			case "replace":
+				continue
 			}
-			if n := r.A("replace_name"); n != "" {
-				out = append(out, Pair{n, trimV(r.A("replace_version"))})
-			} else {
-				out = append(out, Pair{r.Name, trimV(r.Version)})
+			n, v := goModResolve(reps, r.Name, r.Version)
+			p := Pair{n, trimV(v)}
+			// two requirements resolved to the same module version are one package
+			if !seen[p] {
+				seen[p] = true
+				out = append(out, p)
 			}
 		}
 		return out
